@@ -32,10 +32,16 @@ class C16Geometry1D(Harness):
                     if tier == "quick" and kind == "real" and M == 3:
                         continue
                     yield f"g1d-M{M}-g{int(gap)}-{kind}", dict(M=M, gap=gap, kind=kind)
+        # narrow integer dtypes: each content fits, the running sum need not
+        yield "g1d-M3-int16", dict(M=3, gap=False, kind="int", dtype="int16")
+        yield "g1d-M2-int32", dict(M=2, gap=False, kind="int", dtype="int32")
 
     def declare(self, cx, p):
         M = p["M"]
-        x = {"f": declare_cells(cx, "f", [M], p["kind"])}
+        if p.get("dtype"):
+            x = {"f": cx.ints("f", M, 0, 2 ** (int(p["dtype"][3:]) - 1) - 1)}
+        else:
+            x = {"f": declare_cells(cx, "f", [M], p["kind"])}
         if not p["gap"]:
             e = declare_edges(cx, "e", M)
             x["l"], x["r"] = e[:-1], e[1:]
@@ -50,7 +56,7 @@ class C16Geometry1D(Harness):
         np = E.np
         H1 = E.mod("physt.histogram1d").Histogram1D
         SB = E.mod("physt.binnings").StaticBinning
-        dt = int if p["kind"] == "int" else float
+        dt = p.get("dtype") or (int if p["kind"] == "int" else float)
         h = H1(SB([[l, r] for l, r in zip(x["l"], x["r"])]), np.asarray(x["f"], dtype=dt))
         return {"dens": _tolist(h.densities), "sizes": _tolist(h.bin_sizes), "widths": _tolist(h.bin_widths), "centers": _tolist(h.bin_centers),
                 "left": _tolist(h.bin_left_edges), "right": _tolist(h.bin_right_edges), "min_edge": h.min_edge, "max_edge": h.max_edge,
